@@ -26,8 +26,15 @@ PROPS = {
                      "a RequestedAuthnContext with zero Contexts serialises without AuthnContextClassRef, which the schema does not allow (stated in C15_schema_order)"],
     ),
     "C13": dict(
-        model_files=BUILD_MODEL,
+        model_files=BUILD_MODEL + ["Keys", "GenPrelude", "GenFuncs", "GenPreludeB", "GenBuild", "GenPreludeSign", "GenSign", "P_GenSign"],
         trusted_base=[KERNEL, GEN, HARNESS, _ETREE,
+                      "gen/unit_Sign.go: binding table of the translated SigningContext / Sign{AuthnRequest,LogoutRequest,LogoutResponse} / Build*Document wrappers / BuildAuthRequest "
+                      "(receiver = GenPreludeSign.sign_cfg: Build.bcfg, Keys.keycfg and the cached context; *dsig.SigningContext = dctx with Keys.sign_ctx as key part; dsig.NewSigningContext / "
+                      "NewDefaultSigningContext / SetSignatureMethod = GenPreludeSign.dsig_* over Build.v's identifier tables; ConstructSignature = Build.construct_signature behind abs_ctx, which keeps ONE "
+                      "certificate of a signer context; *etree.Element / etree.Token = Xml.node, Copy = the value, Child = kids_of; Document.WriteToString = Build.etree_write); the four mutex statements are "
+                      "accepted only in the order RLock, RUnlock, Lock, defer Unlock and then have no sequential effect (their concurrent meaning is C17's subject); the in-place rewrite of the CALLER's element by "
+                      "ConstructSignature is not part of a Sign* result; Section variables of GenSign.v (universally quantified in the theorems): getPublicKeyAlgorithm of a crypto.Signer, the naming of keys, "
+                      "DigestValue / SignatureValue or the signer's error, the signing step handed to the builders",
                       "hand-written model Build.v of saml.go SigningContext / getSigningCert / GetSigningCertBytes / Metadata signing descriptor and of "
                       "Sign{AuthnRequest,LogoutRequest,LogoutResponse}",
                       "hand-written model Build.v of goxmldsig v1.5.0 (pinned in /repo/go.mod): NewDefaultSigningContext / NewSigningContext, SetSignatureMethod, getPublicKeyAlgorithm, "
@@ -42,6 +49,9 @@ PROPS = {
                      "C13_embedded_cert_is_reported_cert assumes that a field key store implementing X509ChainStore returns a chain starting with its GetKeyPair certificate (true of dsig.TLSCertKeyStore)",
                      "a user-supplied Canonicalizer other than goxmldsig's exclusive ones is assumed not to modify the element it is given (CanonOther)",
                      "C13_signing_key_agreement is stated over Build.v's own model of the key choice (the shared Keys.v was not available when this was written)",
-                     "the signing context is created once and cached: re-configuration after first use is outside this model (known finding stale-signing-context of the key-store work)"],
+                     "the signing context is created once and cached: re-configuration after first use is outside this model (known finding stale-signing-context of the key-store work)",
+                     "C13_source_*: the translated SigningContext / Sign* are equal to pm-valued models for ALL receivers (they can panic: no key at all, a nil signer in an override, an element without "
+                     "children; the receiver state after a panic is not represented); the corollaries relating them to Build.signing_context / sign_element / message_doc assume an empty cache and overrides "
+                     "set through the setters (Keys.setters_wf); goxmldsig's ConstructSignature is bound to Build.construct_signature, not translated"],
     ),
 }
